@@ -33,6 +33,11 @@ def ascii_ok(s: str) -> bool:
     return all(32 <= ord(c) < 127 for c in s)
 
 
+def fbits(x: float) -> int:
+    import struct
+    return int.from_bytes(struct.pack(">d", x), "big")
+
+
 def t_oe(e: ast.expr | None) -> list:
     return ["O"] if e is None else ["O", t_expr(e)]
 
@@ -50,12 +55,42 @@ def t_expr(e: ast.expr) -> list:
         return ["EStar", P(e), t_expr(e.value)]
     if isinstance(e, ast.Lambda):
         return ["ELambda", P(e), t_params(e.args), t_expr(e.body)]
+    if isinstance(e, ast.Yield):
+        return ["EYield", P(e), t_oe(e.value)]
+    if isinstance(e, ast.YieldFrom):
+        return ["EYieldFrom", P(e), t_expr(e.value)]
+    if isinstance(e, ast.Await):
+        return ["EAwait", P(e), t_expr(e.value)]
+    if isinstance(e, ast.NamedExpr):
+        if not isinstance(e.target, ast.Name) or not ascii_ok(e.target.id):
+            raise Outside("walrus target")
+        return ["EWalrus", P(e), P(e.target), e.target.id, t_expr(e.value)]
+    if isinstance(e, (ast.ListComp, ast.SetComp, ast.GeneratorExp, ast.DictComp)):
+        if any(g.is_async for g in e.generators):
+            raise Outside("async comprehension")
+        gens = [["gen", t_expr(g.target), t_expr(g.iter), [t_expr(c) for c in g.ifs]] for g in e.generators]
+        if isinstance(e, ast.DictComp):
+            return ["EDictComp", P(e), t_expr(e.key), t_expr(e.value), gens]
+        kind = "CList" if isinstance(e, ast.ListComp) else "CSet" if isinstance(e, ast.SetComp) else "CGen"
+        return ["EComp", P(e), kind, t_expr(e.elt), gens]
     if isinstance(e, ast.Name):
         return ["EName", P(e), e.id]
     if isinstance(e, ast.Constant):
         v = e.value
-        if isinstance(v, bool) or v is None:
-            raise Outside("constant None/True/False")
+        if v is None or v is True or v is False:
+            return ["EConst", P(e), "CNone" if v is None else "CTrue" if v else "CFalse"]
+        if v is Ellipsis:
+            return ["EEllipsis", P(e)]
+        if isinstance(v, float):
+            return ["EFloat", P(e), fbits(v)]
+        if isinstance(v, complex):
+            return ["EComplex", P(e), fbits(v.real), fbits(v.imag)]
+        if isinstance(v, bytes):
+            from mypy.util import bytes_to_human_readable_repr
+            r = bytes_to_human_readable_repr(v)
+            if not ascii_ok(r):
+                raise Outside("non-ascii bytes repr")
+            return ["EBytes", P(e), r]
         if isinstance(v, int):
             if abs(v) >= 2 ** 62:
                 raise Outside("big int")
@@ -68,6 +103,11 @@ def t_expr(e: ast.expr) -> list:
     if isinstance(e, ast.Attribute):
         return ["EAttr", P(e), t_expr(e.value), e.attr]
     if isinstance(e, ast.Call):
+        if (len(e.args) == 1 and not e.keywords and isinstance(e.args[0], ast.GeneratorExp)
+                and (e.args[0].end_lineno, e.args[0].end_col_offset) == (e.end_lineno, e.end_col_offset)):
+            # f(x for x in y): CPython's GeneratorExp spans the call parentheses, the native front end reports the bare
+            # generator (a listed finding: diag-position:start:GeneratorExp) -- the native extent is not a function of the tree
+            raise Outside("bare generator argument")
         pargs = []
         for a in e.args:
             if isinstance(a, ast.Starred):
@@ -344,6 +384,32 @@ def m_expr(e: Any) -> list:
         return ["MSlice", MP(e), m_oe(e.begin_index), m_oe(e.end_index), m_oe(e.stride)]
     if t is N.StarExpr:
         return ["MStar", MP(e), m_expr(e.expr)]
+    if t is N.EllipsisExpr:
+        return ["MEllipsis", MP(e)]
+    if t is N.YieldExpr:
+        return ["MYield", MP(e), m_oe(e.expr)]
+    if t is N.YieldFromExpr:
+        return ["MYieldFrom", MP(e), m_expr(e.expr)]
+    if t is N.AwaitExpr:
+        return ["MAwait", MP(e), m_expr(e.expr)]
+    if t is N.AssignmentExpr:
+        return ["MAssignExpr", MP(e), m_expr(e.target), m_expr(e.value)]
+    if t is N.BytesExpr:
+        return ["MBytes", MP(e), e.value]
+    if t is N.FloatExpr:
+        return ["MFloat", MP(e), fbits(e.value)]
+    if t is N.ComplexExpr:
+        return ["MComplex", MP(e), fbits(e.value.real), fbits(e.value.imag)]
+    if t is N.GeneratorExpr:
+        return ["MGenerator", MP(e), m_expr(e.left_expr), [m_expr(x) for x in e.indices], [m_expr(x) for x in e.sequences],
+                [[m_expr(c) for c in cl] for cl in e.condlists], [bool(b) for b in e.is_async]]
+    if t is N.ListComprehension:
+        return ["MListComp", MP(e), m_expr(e.generator)]
+    if t is N.SetComprehension:
+        return ["MSetComp", MP(e), m_expr(e.generator)]
+    if t is N.DictionaryComprehension:
+        return ["MDictComp", MP(e), m_expr(e.key), m_expr(e.value), [m_expr(x) for x in e.indices], [m_expr(x) for x in e.sequences],
+                [[m_expr(c) for c in cl] for cl in e.condlists], [bool(b) for b in e.is_async]]
     if t is N.LambdaExpr:
         if e.type is not None:
             raise Outside("typed lambda")
@@ -486,8 +552,10 @@ def traced_native(src: str, ver: tuple[int, int]) -> tuple[Any, list, bytes, lis
         elif k == "B":
             write_bool(w, v)
         else:
-            raise Outside("float token")
+            from librt.internal import write_float
+            write_float(w, v)
     ok = w.getvalue() == b
+    toks = [[k, fbits(v)] if k == "F" else [k, v] for k, v in toks]
     return defs, toks, b, [ok, list(errors), list(state.errors)]
 
 
